@@ -7,6 +7,7 @@ require (
 	github.com/consensys/gnark-crypto v0.9.1
 	github.com/iden3/go-iden3-crypto v0.0.13
 	github.com/reilabs/gnark-lean-extractor/v2 v2.1.0
+	github.com/rs/zerolog v1.29.0
 	golang.org/x/crypto v0.25.0
 	pgregory.net/rapid v1.3.0
 	worldcoin/gnark-mbu v0.0.0
@@ -69,7 +70,6 @@ require (
 	github.com/prometheus/client_model v0.3.0 // indirect
 	github.com/prometheus/common v0.37.0 // indirect
 	github.com/prometheus/procfs v0.8.0 // indirect
-	github.com/rs/zerolog v1.29.0 // indirect
 	github.com/ryanuber/go-glob v1.0.0 // indirect
 	github.com/secure-systems-lab/go-securesystemslib v0.7.0 // indirect
 	github.com/stretchr/testify v1.9.0 // indirect
